@@ -1527,6 +1527,37 @@ struct PrimitiveVecAccess<'de> {
     prim: PrimitiveType,
 }
 
+/// The element of a primitive vector as a deserializer: a primitive value that, unlike serde's own
+/// value deserializers, lets a newtype struct (`struct Id(u64)`) see through to its field, as
+/// `deserialize_newtype_struct` of the main deserializer does.
+#[cfg(target_endian = "little")]
+struct PrimitiveElement<D>(D);
+
+#[cfg(target_endian = "little")]
+impl<'de, D> de::Deserializer<'de> for PrimitiveElement<D>
+where
+    D: de::Deserializer<'de, Error = Error>,
+{
+    type Error = Error;
+    fn deserialize_any<V>(self, visitor: V) -> Result<V::Value>
+    where
+        V: Visitor<'de>,
+    {
+        self.0.deserialize_any(visitor)
+    }
+    fn deserialize_newtype_struct<V>(self, _name: &'static str, visitor: V) -> Result<V::Value>
+    where
+        V: Visitor<'de>,
+    {
+        visitor.visit_newtype_struct(self)
+    }
+    serde::forward_to_deserialize_any! {
+        bool i8 i16 i32 i64 i128 u8 u16 u32 u64 u128 f32 f64 char str string
+        bytes byte_buf option unit unit_struct seq tuple
+        tuple_struct map struct enum identifier ignored_any
+    }
+}
+
 #[cfg(target_endian = "little")]
 impl<'de> de::SeqAccess<'de> for PrimitiveVecAccess<'de> {
     type Error = Error;
@@ -1545,45 +1576,59 @@ impl<'de> de::SeqAccess<'de> for PrimitiveVecAccess<'de> {
 
         match self.prim {
             PrimitiveType::Bool => match bytes[0] {
-                0 => seed.deserialize(false.into_deserializer()).map(Some),
-                1 => seed.deserialize(true.into_deserializer()).map(Some),
+                0 => seed
+                    .deserialize(PrimitiveElement(false.into_deserializer()))
+                    .map(Some),
+                1 => seed
+                    .deserialize(PrimitiveElement(true.into_deserializer()))
+                    .map(Some),
                 _ => Err(Error::msg("Expect 00 or 01")),
             },
-            PrimitiveType::Nat8 => seed.deserialize(bytes[0].into_deserializer()).map(Some),
+            PrimitiveType::Nat8 => seed
+                .deserialize(PrimitiveElement(bytes[0].into_deserializer()))
+                .map(Some),
             PrimitiveType::Int8 => seed
-                .deserialize((bytes[0] as i8).into_deserializer())
+                .deserialize(PrimitiveElement((bytes[0] as i8).into_deserializer()))
                 .map(Some),
             PrimitiveType::Nat16 => {
                 let v = u16::from_le_bytes(bytes.try_into().unwrap());
-                seed.deserialize(v.into_deserializer()).map(Some)
+                seed.deserialize(PrimitiveElement(v.into_deserializer()))
+                    .map(Some)
             }
             PrimitiveType::Int16 => {
                 let v = i16::from_le_bytes(bytes.try_into().unwrap());
-                seed.deserialize(v.into_deserializer()).map(Some)
+                seed.deserialize(PrimitiveElement(v.into_deserializer()))
+                    .map(Some)
             }
             PrimitiveType::Nat32 => {
                 let v = u32::from_le_bytes(bytes.try_into().unwrap());
-                seed.deserialize(v.into_deserializer()).map(Some)
+                seed.deserialize(PrimitiveElement(v.into_deserializer()))
+                    .map(Some)
             }
             PrimitiveType::Int32 => {
                 let v = i32::from_le_bytes(bytes.try_into().unwrap());
-                seed.deserialize(v.into_deserializer()).map(Some)
+                seed.deserialize(PrimitiveElement(v.into_deserializer()))
+                    .map(Some)
             }
             PrimitiveType::Float32 => {
                 let v = f32::from_le_bytes(bytes.try_into().unwrap());
-                seed.deserialize(v.into_deserializer()).map(Some)
+                seed.deserialize(PrimitiveElement(v.into_deserializer()))
+                    .map(Some)
             }
             PrimitiveType::Nat64 => {
                 let v = u64::from_le_bytes(bytes.try_into().unwrap());
-                seed.deserialize(v.into_deserializer()).map(Some)
+                seed.deserialize(PrimitiveElement(v.into_deserializer()))
+                    .map(Some)
             }
             PrimitiveType::Int64 => {
                 let v = i64::from_le_bytes(bytes.try_into().unwrap());
-                seed.deserialize(v.into_deserializer()).map(Some)
+                seed.deserialize(PrimitiveElement(v.into_deserializer()))
+                    .map(Some)
             }
             PrimitiveType::Float64 => {
                 let v = f64::from_le_bytes(bytes.try_into().unwrap());
-                seed.deserialize(v.into_deserializer()).map(Some)
+                seed.deserialize(PrimitiveElement(v.into_deserializer()))
+                    .map(Some)
             }
         }
     }
